@@ -99,8 +99,12 @@ def rules(ctx: Ctx) -> None:
                         r = prog.resolve(f.mod.name, nm.id, f)
                         if r[0] == "var":
                             ok = False
-                ctx.ob("R14.2", f"table-site:{f.qual.split('.', 2)[-1]}:explicit-schema", ok, loc(f.mod, n),
-                       f"`{u(n)[:60]}` passes a schema computed in the enclosing call")
+                # ... from the SQL text or an existing object - a schema name fixed in the code (the placeholder, a literal) decides where an
+                # unqualified name lives without asking the configuration
+                fixed = [c_ for c_ in ast.walk(schema_arg) if isinstance(c_, ast.Call) and c_.args and isinstance(prog.try_fold(c_.args[0], f.mod, f), str)
+                         and any(isinstance(x, Fn) and x.cls is Schema for x in prog.resolve_call(c_, f))]
+                ctx.ob("R14.2", f"table-site:{f.qual.split('.', 2)[-1]}:explicit-schema", ok and not fixed, loc(f.mod, n),
+                       f"`{u(n)[:60]}` passes a schema computed in the enclosing call" + (f"; `{u(fixed[0])}` is a schema name fixed in the code: the configured default is never consulted for this table" if fixed else ""))
     ctx.floor("Table construction sites", n_sites, 5)
     # no caching of config-derived schema in module / class state
     for f in prog.funcs.values():
@@ -147,6 +151,14 @@ def rules(ctx: Ctx) -> None:
                     tested = n
             if isinstance(n, ast.Compare) and any("unknown" in u(x) and "Schema" in u(x) or (isinstance(x, ast.Attribute) and x.attr == "unknown") for x in [n.left] + n.comparators):
                 tested = n
+            # ... or on whether it equals the configured default: comparing with a freshly built `Schema()` (or the configured name itself) makes
+            # the outcome a function of the configuration rather than of the names written in the script
+            if isinstance(n, ast.Compare) and f.mod.name != Schema.mod.name:
+                for x in [n.left] + n.comparators:
+                    for v in ([x] if not isinstance(x, ast.Name) else prog.value_sources(f, x)):
+                        if (isinstance(v, ast.Call) and not v.args and not v.keywords and any(isinstance(c_, Fn) and c_.cls is Schema for c_ in prog.resolve_call(v, f))) or (
+                                isinstance(v, ast.AST) and _reads_key(v)):
+                            tested = n
             if tested is None:
                 continue
             n_tests += 1
@@ -217,6 +229,12 @@ def rules(ctx: Ctx) -> None:
     from .common import import_rules as _imp14b
 
     _imp14b(ctx, "C15", {"R15.3": "R14.6"})
+    # ---- R14.7 no memo outlives a change of the default schema (= R12.2, memoising decorators): names resolved under one default are
+    # handed out again under another
+    _imp14b(ctx, "C12", {"R12.2": "R14.7"}, key_filter=lambda o: o.key.startswith("memoised:"))
+
+    # ---- R14.8 (= R15.7): the statements of a script are analysed in the thread that holds the scoped default schema
+    _imp14b(ctx, "C15", {"R15.7": "R14.8"})
 
 
 def _reads_key(e: ast.AST) -> bool:
